@@ -37,6 +37,20 @@ pub fn final_request(srv: &Value, version: u32, client_pub: &[u8], key: &[u8], s
         // sealed with the client-to-server keys (server uses the wrong direction)
         "wrong_direction" => { let mut c = SecCtx::new(key, true); let t = c.wrap(&honest_plain); wrap_req(&t) }
         "bad_checksum" => { let mut t = s2c.wrap(&honest_plain); t[4 + (gi(srv, "i", 0) as usize % 8)] ^= 0x80; wrap_req(&t) }
+        // several bytes of the sealed token altered at once: "xor" = list of [position, mask]; "swap" = [i, j]
+        "token_xor" => {
+            let mut t = s2c.wrap(&honest_plain);
+            let f = srv.get("final").cloned().unwrap_or_default();
+            if let Some(a) = f.get("xor").and_then(|x| x.as_array()) {
+                for pm in a { let p = pm[0].as_u64().unwrap_or(0) as usize % t.len(); t[p] ^= pm[1].as_u64().unwrap_or(0) as u8; }
+            }
+            if let Some(a) = f.get("swap").and_then(|x| x.as_array()) {
+                let (i, j) = (a[0].as_u64().unwrap_or(0) as usize % t.len(), a[1].as_u64().unwrap_or(0) as usize % t.len());
+                t.swap(i, j);
+            }
+            if let Some(v) = f.get("fill").and_then(|x| x.as_u64()) { for p in 4..12 { t[p] = v as u8; } }
+            wrap_req(&t)
+        }
         "bad_seq" => { let mut t = s2c.wrap(&honest_plain); t[12] ^= 1; wrap_req(&t) }
         "bad_sig_version" => { let mut t = s2c.wrap(&honest_plain); t[0] = 2; wrap_req(&t) }
         "truncated" => { let t = s2c.wrap(&honest_plain); let n = (gi(srv, "n", 0) as usize).min(t.len()); wrap_req(&t[..n]) }
